@@ -616,3 +616,26 @@ impl Lexeme {
         &self.bytes
     }
 }
+
+// Verification hook (feature `llg_verif`): per-lexeme flags of the lexer specification.
+#[cfg(feature = "llg_verif")]
+impl LexerSpec {
+    /// per lexeme: (is_skip, skip once, ends_at_eos, is_suffix, has token ranges, is_extra, class)
+    pub fn verif_lexeme_flags(&self) -> Vec<(bool, bool, bool, bool, bool, bool, u32)> {
+        self.lexemes
+            .iter()
+            .map(|l| {
+                (
+                    l.is_skip,
+                    l.skip_repetition == SkipRepetition::Once,
+                    l.ends_at_eos,
+                    l.is_suffix,
+                    !l.token_ranges.is_empty(),
+                    l.is_extra,
+                    l.class.as_usize() as u32,
+                )
+            })
+            .collect()
+    }
+}
+
